@@ -89,6 +89,19 @@ type editVariant struct {
 	// honest block (re-used as is when nil) after the edit
 	editState func(st *chain.StateCtx, deposits *chain.DepositTree, env *common.BeaconBlockEnvelope) error
 	mutate    func(st *chain.StateCtx, env *common.BeaconBlockEnvelope) (*common.BeaconBlockEnvelope, error)
+	// keepBlock: the honest block is used exactly as it is (its state root is already the one an implementation
+	// that wrongly processes it would compute)
+	keepBlock bool
+	anySlot   bool // also applicable to blocks at the first slot of an epoch
+}
+
+// The honest pre-state advanced (through empty slots, by ProcessSlots) to the block's OWN slot, or one beyond: the
+// block is fully valid for the state at its slot - proposer, parent root, signature, state root - but
+// state_transition starts with process_slots(state, block.slot), which asserts state.slot < block.slot.
+func advanceTo(extra common.Slot) func(st *chain.StateCtx, deposits *chain.DepositTree, env *common.BeaconBlockEnvelope) error {
+	return func(st *chain.StateCtx, _ *chain.DepositTree, env *common.BeaconBlockEnvelope) error {
+		return st.Advance(env.Slot + extra)
+	}
 }
 
 // eth1_data.deposit_count one below eth1_deposit_index: reachable when an eth1 vote majority adopts data with a
@@ -180,22 +193,24 @@ var (
 )
 
 var editVariants = []editVariant{
-	{"pslash-withdrawable-now", "slashable_boundary", 2, false, editWdNow, planPSlash, nil, nil},
-	{"pslash-withdrawable-next-control", "slashable_boundary", 1, false, editWdNext, planPSlash, nil, nil},
-	{"pslash-activation-next", "slashable_boundary", 0, false, editActNext, planPSlash, nil, nil},
-	{"pslash-activation-now-control", "slashable_boundary", 1, false, editActNow, planPSlash, nil, nil},
-	{"aslash-withdrawable-now", "slashable_boundary", 2, false, editWdNow, planASlash, nil, nil},
-	{"aslash-withdrawable-next-control", "slashable_boundary", 1, false, editWdNext, planASlash, nil, nil},
-	{"aslash-activation-next", "slashable_boundary", 0, false, editActNext, planASlash, nil, nil},
-	{"aslash-activation-now-control", "slashable_boundary", 1, false, editActNow, planASlash, nil, nil},
-	{"exit-of-pending-validator", "exit_status", 0, false, editPending, planExit, nil, nil},
-	{"exit-of-future-activation", "exit_status", 0, false, editActNext, planExit, nil, nil},
-	{"exit-of-exited-validator", "exit_status", 1, false, editExited, planExit, nil, nil},
-	{"exit-already-initiated", "exit_status", 0, false, editExiting, planExit, nil, nil},
-	{"header-proposer-slashed", "header", 0, true, editSlashedP, nil, nil, nil},
-	{"deposit-count-below-index-no-deposits", "deposit_count_underflow", 0, true, nil, nil, editCountBelowIndex, nil},
-	{"deposit-count-below-index-one-deposit", "deposit_count_underflow", 0, true, nil, nil, editCountBelowIndex, appendDeposit},
-	{"deposit-count-below-index-root-commits-more", "deposit_count_underflow", 0, true, nil, nil, editCountBelowIndexRootCommitsMore, nil},
+	{"pslash-withdrawable-now", "slashable_boundary", 2, false, editWdNow, planPSlash, nil, nil, false, false},
+	{"pslash-withdrawable-next-control", "slashable_boundary", 1, false, editWdNext, planPSlash, nil, nil, false, false},
+	{"pslash-activation-next", "slashable_boundary", 0, false, editActNext, planPSlash, nil, nil, false, false},
+	{"pslash-activation-now-control", "slashable_boundary", 1, false, editActNow, planPSlash, nil, nil, false, false},
+	{"aslash-withdrawable-now", "slashable_boundary", 2, false, editWdNow, planASlash, nil, nil, false, false},
+	{"aslash-withdrawable-next-control", "slashable_boundary", 1, false, editWdNext, planASlash, nil, nil, false, false},
+	{"aslash-activation-next", "slashable_boundary", 0, false, editActNext, planASlash, nil, nil, false, false},
+	{"aslash-activation-now-control", "slashable_boundary", 1, false, editActNow, planASlash, nil, nil, false, false},
+	{"exit-of-pending-validator", "exit_status", 0, false, editPending, planExit, nil, nil, false, false},
+	{"exit-of-future-activation", "exit_status", 0, false, editActNext, planExit, nil, nil, false, false},
+	{"exit-of-exited-validator", "exit_status", 1, false, editExited, planExit, nil, nil, false, false},
+	{"exit-already-initiated", "exit_status", 0, false, editExiting, planExit, nil, nil, false, false},
+	{"header-proposer-slashed", "header", 0, true, editSlashedP, nil, nil, nil, false, false},
+	{"deposit-count-below-index-no-deposits", "deposit_count_underflow", 0, true, nil, nil, editCountBelowIndex, nil, false, false},
+	{"deposit-count-below-index-one-deposit", "deposit_count_underflow", 0, true, nil, nil, editCountBelowIndex, appendDeposit, false, false},
+	{"deposit-count-below-index-root-commits-more", "deposit_count_underflow", 0, true, nil, nil, editCountBelowIndexRootCommitsMore, nil, false, false},
+	{"block-slot-equals-state-slot", "block_slot_not_after_state_slot", 0, true, nil, nil, advanceTo(0), nil, true, true},
+	{"block-slot-before-state-slot", "block_slot_not_after_state_slot", 0, true, nil, nil, advanceTo(1), nil, true, true},
 }
 
 // runEdited builds and runs one editVariant for the block env (about to be applied on c's head).
@@ -259,7 +274,7 @@ func (o *observer) runEdited(c *chain.Chain, env *common.BeaconBlockEnvelope, ev
 			return
 		}
 	}
-	if ev.plan == nil {
+	if ev.plan == nil && !ev.keepBlock {
 		// the honest block re-used on the edited state: give it the state root an implementation that (wrongly)
 		// processes it would arrive at - as for every other variant, only the edited condition may decide
 		pre2 := base.Copy(true)
@@ -348,10 +363,19 @@ func (o *observer) BeforeBlock(c *chain.Chain, env *common.BeaconBlockEnvelope) 
 			}
 		}
 	}
-	if env.Slot%c.Spec.SLOTS_PER_EPOCH != 0 {
-		for i := 0; i < o.editsPer; i++ {
-			o.runEdited(c, env, editVariants[o.nextEdit%len(editVariants)])
-			o.nextEdit++
+	for i := 0; i < o.editsPer; i++ {
+		ev := editVariants[o.nextEdit%len(editVariants)]
+		o.nextEdit++
+		if ev.anySlot || env.Slot%c.Spec.SLOTS_PER_EPOCH != 0 {
+			o.runEdited(c, env, ev)
+		}
+	}
+	// process_slots precondition at the entry point itself: ProcessSlots to the current slot and to an earlier one
+	// must fail and leave the state unchanged
+	if cur := c.Slot(); o.next%3 == 0 {
+		o.rec.SlotsNeg(c.Ctx, c.Spec, c.Epc, c.State, cur)
+		if cur >= 1 {
+			o.rec.SlotsNeg(c.Ctx, c.Spec, c.Epc, c.State, cur-1-common.Slot(o.rng.Intn(int(cur))))
 		}
 	}
 	for i := 0; i < o.bytesPer; i++ {
